@@ -14,7 +14,10 @@ pub(crate) fn impl_sqrt(n: &BigUint, scale: i64, ctx: &Context) -> BigDecimal {
     let prec = ctx.precision().get();
     let extra_rounding_digit_count = 5;
     let wanted_digits = 2 * (prec + extra_rounding_digit_count);
-    let exponent = wanted_digits.saturating_sub(num_digits) + u64::from(scale_diff.is_odd());
+    // the scale after shifting must be even for the digits of the integer root to
+    // be the digits of the decimal root
+    let shift = wanted_digits.saturating_sub(num_digits);
+    let exponent = shift + u64::from((BigInt::from(shift) + scale).is_odd());
     let sqrt_digits = (n * ten_to_the_uint(exponent)).sqrt();
 
     // Calculate the scale of the result
